@@ -19,11 +19,12 @@ import (
 )
 
 type job struct {
-	Kind string // "asm" or "battle"
-	Text int    // asm: index into Texts
-	W1   int    // battle: indexes into the shared warrior pool (assembled Texts)
-	W2   int
-	Off  int
+	Kind  string // "asm" or "battle"
+	Text  int    // asm: index into Texts
+	W1    int    // battle: indexes into the shared warrior pool (assembled Texts)
+	W2    int
+	Off   int
+	Small bool // battle in a simulator with a smaller core (shares the same warrior data)
 }
 
 type concCase struct {
@@ -86,6 +87,7 @@ func genConcCase(t *rapid.T) concCase {
 			j.W1 = rapid.IntRange(0, nt-1).Draw(t, "w1")
 			j.W2 = rapid.IntRange(0, nt-1).Draw(t, "w2")
 			j.Off = rapid.IntRange(200, 7800).Draw(t, "off")
+			j.Small = rapid.IntRange(0, 3).Draw(t, "small") == 0
 		} else {
 			j.Kind = "asm"
 			j.Text = rapid.IntRange(0, nt-1).Draw(t, "text")
@@ -126,12 +128,15 @@ func judgeConcCase(c concCase, rec *hx.Rec) string {
 	}
 	cfg := asmG(concCfg) // one configuration value shared by every job
 	cfg.Cycles = 400
-	// shared warrior pool
+	small := cfg // a second simulator size: the same warrior data is shared between differently sized cores
+	small.CoreSize, small.ReadLimit, small.WriteLimit, small.Length, small.Distance = 800, 800, 800, 100, 100
+	// shared warrior pool, assembled from a different rendering of each text than the
+	// one the concurrent jobs assemble (so the concurrent phase meets text it has not seen)
 	pool := make([]*gmars.WarriorData, len(c.Texts))
 	for i, txt := range c.Texts {
-		wd, err := gmars.CompileWarrior(strings.NewReader(txt), cfg)
+		wd, err := gmars.CompileWarrior(strings.NewReader(strings.ToUpper(txt)), cfg)
 		if err != nil {
-			wd = gmars.WarriorData{Code: []gmars.Instruction{{Op: gmars.JMP, OpMode: gmars.B}}}
+			wd = gmars.WarriorData{Code: []gmars.Instruction{{Op: gmars.JMP, OpMode: gmars.B}, {Op: gmars.MOV, OpMode: gmars.I, A: 7999, B: 5000}}}
 		}
 		w := wd
 		pool[i] = &w
@@ -144,30 +149,21 @@ func judgeConcCase(c concCase, rec *hx.Rec) string {
 		if j.Kind == "asm" {
 			return wdString(gmars.CompileWarrior(strings.NewReader(c.Texts[j.Text]), cfg))
 		}
+		if j.Small {
+			return runBattleJob(small, pool[j.W1], pool[j.W2], j.Off%700+50)
+		}
 		return runBattleJob(cfg, pool[j.W1], pool[j.W2], j.Off)
 	}
 	valid := func(j job) bool {
 		return j.Text >= 0 && j.Text < len(c.Texts) && j.W1 >= 0 && j.W1 < len(pool) && j.W2 >= 0 && j.W2 < len(pool) && j.Off >= 0
 	}
-	want := make([]string, len(c.Jobs))
-	for i, j := range c.Jobs {
+	for _, j := range c.Jobs {
 		if !valid(j) {
 			return "malformed case"
 		}
-		want[i] = do(j)
 	}
-	// repeatability in one thread (map iteration order is randomised per range statement)
-	for i, j := range c.Jobs {
-		if i >= 3 {
-			break
-		}
-		for r := 0; r < 10; r++ {
-			if got := do(j); got != want[i] {
-				return fmt.Sprintf("job %d (%+v) is not repeatable: run %d gave\n  %s\nfirst run gave\n  %s", i, j, r, got, want[i])
-			}
-		}
-	}
-	// concurrent
+	// concurrent phase FIRST: nothing in this process has assembled these texts
+	// or run these battles yet, so caches or lazily built shared state are cold
 	got := make([]string, len(c.Jobs))
 	panics := make([]string, len(c.Jobs))
 	var wg sync.WaitGroup
@@ -189,12 +185,28 @@ func judgeConcCase(c concCase, rec *hx.Rec) string {
 	}
 	close(start)
 	wg.Wait()
+	// sequential reference afterwards
+	want := make([]string, len(c.Jobs))
+	for i, j := range c.Jobs {
+		want[i] = do(j)
+	}
 	for i := range c.Jobs {
 		if panics[i] != "" {
 			return fmt.Sprintf("job %d (%+v) panicked when run concurrently: %s", i, c.Jobs[i], panics[i])
 		}
 		if got[i] != want[i] {
 			return fmt.Sprintf("job %d (%+v) on %d goroutines gave\n  %s\nsequentially it gave\n  %s", i, c.Jobs[i], c.Goroutines, clip(got[i]), clip(want[i]))
+		}
+	}
+	// repeatability in one thread (map iteration order is randomised per range statement)
+	for i, j := range c.Jobs {
+		if i >= 3 {
+			break
+		}
+		for r := 0; r < 10; r++ {
+			if got := do(j); got != want[i] {
+				return fmt.Sprintf("job %d (%+v) is not repeatable: run %d gave\n  %s\nfirst run gave\n  %s", i, j, r, got, want[i])
+			}
 		}
 	}
 	// battles must not write through to the shared warrior data
@@ -317,7 +329,7 @@ func judgeIsoCase(c isoCase, rec *hx.Rec) string {
 	return ""
 }
 
-const c14Rule = "harness built with -race. Job sets of 4..64 jobs over 1..6 texts (repository warriors, C03/C08 generator output, an EQU cycle): `assemble text` or `battle` (simulator from one shared SimulatorConfig value and shared *WarriorData, spawn, Run, hash of the whole core); expected results from a sequential pass, first three jobs repeated 10x (repeatability), then all jobs on 1/2/8/32 goroutines released by a barrier: every result must equal the sequential one (error text excluded), shared WarriorData unchanged, and the race detector silent (any DATA RACE report fails the check). Non-trivial: >= 8 jobs on >= 8 goroutines with a WarriorData shared by two simulators; distinct by case hash."
+const c14Rule = "harness built with -race. Job sets of 4..64 jobs over 1..6 texts (repository warriors, C03/C08 generator output, an EQU cycle): `assemble text` or `battle` (simulator from one shared SimulatorConfig value and shared *WarriorData, spawn, Run, hash of the whole core); the jobs run FIRST on 1/2/8/32 goroutines released by a barrier (so process-wide caches are cold; battles use an 8000-cell and an 800-cell simulator sharing the same warrior data), then sequentially: every concurrent result must equal the sequential one, the first three jobs are repeated 10x (repeatability) (error text excluded), shared WarriorData unchanged, and the race detector silent (any DATA RACE report fails the check). Non-trivial: >= 8 jobs on >= 8 goroutines with a WarriorData shared by two simulators; distinct by case hash."
 
 func TestC14_Concurrent(t *testing.T) {
 	hx.Run(t, hx.Prop[concCase]{
@@ -330,6 +342,6 @@ func TestC14_Isolation(t *testing.T) {
 	hx.Run(t, hx.Prop[isoCase]{
 		ID: "C14", Sub: "isolation", Checks: hx.Scale(2000, 300000),
 		Rule: "copy isolation: the same battle is built twice; in one copy every caller-side WarriorData is overwritten (code, entry point, name, appended instruction) after AddWarrior and before SpawnWarrior: outcome, final core, queues, Length/Name/LoadCode must equal the untouched twin, and after the battle the caller's data is unchanged. Every case is non-trivial; distinct by case hash.",
-		Gen: genIsoCase, Judge: judgeIsoCase,
+		Gen:  genIsoCase, Judge: judgeIsoCase,
 	})
 }
